@@ -52,7 +52,10 @@ Definition top (s : sk) : list N := match s with KSeq l => top_calls l | _ => []
 Definition last_is_success (s : sk) : bool := match s with KSeq l => match last l (KRet true) with KRet false => true | _ => false end | _ => false end.
 
 Lemma tie_final_steps :
-  top sk_persistSegmentBaseToWriter = [5; 2] /\ last_is_success sk_persistSegmentBaseToWriter = true /\
+  top sk_persistSegmentBaseToWriter = [30; 5; 2] /\ last_is_success sk_persistSegmentBaseToWriter = true /\
+  (* the counting writer in front of bufio.Writer hands every Write through as ONE write (IO.v
+     models bufio.Writer fed with the image as a single piece, then the footer fields) *)
+  match sk_bufWriter_Write with KSeq [KCall 30; KRet _] => True | _ => False end /\
   top sk_PersistSegmentBase = [8; 7; 3; 4] /\ last_is_success sk_PersistSegmentBase = true /\
   top sk_mergeSegmentBases = [8; 6; 5; 2; 3; 4] /\ last_is_success sk_mergeSegmentBases = true.
 Proof. tvm. Qed.
